@@ -347,12 +347,17 @@ class _Subst(ast.NodeTransformer):
         own = {a.arg for a in n.args.posonlyargs + n.args.args + n.args.kwonlyargs}
         inner = _Subst({k: v for k, v in self.m.items() if k not in own})
         n.body = inner.visit(n.body)
+        # default values are evaluated in the enclosing scope
+        n.args.defaults = [self.visit(d) for d in n.args.defaults]
+        n.args.kw_defaults = [self.visit(d) if d is not None else None for d in n.args.kw_defaults]
         return n
 
     def visit_FunctionDef(self, n):
         own = {a.arg for a in n.args.posonlyargs + n.args.args + n.args.kwonlyargs} | _bound_in(n)
         inner = _Subst({k: v for k, v in self.m.items() if k not in own})
         n.body = [inner.visit(s) for s in n.body]
+        n.args.defaults = [self.visit(d) for d in n.args.defaults]
+        n.args.kw_defaults = [self.visit(d) if d is not None else None for d in n.args.kw_defaults]
         return n
 
 
@@ -789,10 +794,10 @@ class Normaliser:
         for p_ in sorted(gbound & set(m)):
             # a parameter that the helper rebinds becomes a local initialised from the argument
             pre.append(ast.Assign(targets=[ast.Name(id=p_, ctx=ast.Store())], value=m.pop(p_)))
-        body = pre + body
         free = set()
         for st in body:
             free |= names_loaded(st)
+        body = pre + body
         free -= gbound | set(params) | set(selfmap)
         if free & self.caller_bound:
             return None                    # a global of the helper is shadowed by a local of the caller
@@ -800,11 +805,25 @@ class Normaliser:
         for n in ast.walk(ast.Module(body=body, type_ignores=[])):
             if isinstance(n, (ast.Yield, ast.YieldFrom)):
                 has_yield = True
-            if isinstance(n, (ast.Global, ast.Nonlocal, ast.FunctionDef, ast.AsyncFunctionDef, ast.ClassDef)):
+            if isinstance(n, (ast.Global, ast.Nonlocal, ast.AsyncFunctionDef, ast.ClassDef)):
                 return None
+        # nested function definitions keep their names (they must not collide with names of the caller)
+        nested_defs = {n.name for n in ast.walk(ast.Module(body=body, type_ignores=[])) if isinstance(n, ast.FunctionDef)}
+        if nested_defs & self.caller_bound:
+            return None
+        if nested_defs:
+            inner_bound = set()
+            for n in ast.walk(ast.Module(body=body, type_ignores=[])):
+                if isinstance(n, (ast.FunctionDef, ast.Lambda)):
+                    inner_bound |= {x.arg for x in n.args.posonlyargs + n.args.args + n.args.kwonlyargs}
+                    if isinstance(n, ast.FunctionDef):
+                        inner_bound |= _bound_in(n)
+            if inner_bound & (gbound - nested_defs):
+                return None          # a local of the helper is shadowed inside a nested function: renaming would be wrong
+            gbound = gbound - nested_defs
         if has_yield != (mode == 'yieldfrom'):
             return None
-        if mode == 'yieldfrom' and any(isinstance(n, ast.Return) and n.value is not None for n in ast.walk(ast.Module(body=body, type_ignores=[]))):
+        if mode == 'yieldfrom' and has_return_value(body):
             return None
         Normaliser._fresh += 1
         tag = f'{g.name}__{Normaliser._fresh}__'
@@ -831,7 +850,15 @@ class Normaliser:
             return [] if e is None or is_pure(e) else [ast.Expr(value=e)]
 
         def has_return(stmts):
-            return any(isinstance(n, ast.Return) for st in stmts for n in ast.walk(st))
+            stack = list(stmts)
+            while stack:
+                n = stack.pop()
+                if isinstance(n, ast.Return):
+                    return True
+                if isinstance(n, (ast.FunctionDef, ast.AsyncFunctionDef, ast.Lambda, ast.ClassDef)):
+                    continue          # returns of nested functions are their own
+                stack.extend(ast.iter_child_nodes(n))
+            return False
 
         def conv(stmts):
             out = []
@@ -883,6 +910,9 @@ class Normaliser:
             new = new + result(None)
         self.inlined.add(fname)
         return new
+
+    def _callee_name_(self):
+        pass
 
     def _callee_name(self, f):
         if isinstance(f, ast.Name):
@@ -1310,6 +1340,7 @@ class Normaliser:
                 fn = _Beta().visit(fn)
                 fn = _LightFold().visit(fn)
                 self.drop_dead(fn)
+                fn.body = self.block(fn.body)       # a substituted literal table can now be unrolled
                 if ast.dump(fn) == before:
                     break
             self.reaug(fn)
@@ -1326,6 +1357,7 @@ class Normaliser:
             fn = _Beta().visit(fn)
             fn = _Fold().visit(fn)
             self.drop_dead(fn)
+            fn.body = self.block(fn.body)
             if ast.dump(fn) == before:
                 break
         fn = _NNF().visit(fn)
@@ -1522,7 +1554,7 @@ class Normaliser:
                             if isinstance(n, ast.Name) and n.id == x and ver is not None:
                                 n.id = ver
                         serial[0] += 1
-                        ver = f'{x}#{serial[0]}'
+                        ver = f'{x}__v{serial[0]}'
                         st.targets[0].id = ver
                     elif ver is not None:
                         for n in ast.walk(st):
@@ -1637,7 +1669,7 @@ class Normaliser:
                 continue
             for k in loop_groups:
                 for n in groups[k]:
-                    n.id = f'{x}@{k}'
+                    n.id = f'{x}__w{k}'
 
     # ---- R28
     def adjacent_temps(self, fn):
@@ -1658,7 +1690,8 @@ class Normaliser:
                     t = s_.targets[0].id
                     if stores.get(t) == 1 and loads.get(t) == 1 and t not in params and self.is_new(t) and not is_pure(s_.value) \
                             and isinstance(nxt, (ast.Assign, ast.AugAssign, ast.Expr, ast.Return)) and _reads(nxt, t) \
-                            and not any(isinstance(n, (ast.Call, ast.Lambda, ast.Yield, ast.Await)) for n in ast.walk(nxt)):
+                            and not any(isinstance(n, (ast.Lambda, ast.Yield, ast.Await, ast.ListComp, ast.GeneratorExp)) for n in ast.walk(nxt)) \
+                            and _nothing_impure_before(nxt, t):
                         blk[i + 1] = _Subst({t: s_.value}).visit(nxt)
                         del blk[i]
                         changed[0] = True
@@ -1717,7 +1750,7 @@ class Normaliser:
                 for part in [lp.target] + lp.body + lp.orelse:
                     for n in ast.walk(part):
                         if isinstance(n, ast.Name) and n.id == x:
-                            n.id = f'{x}@L{k}'
+                            n.id = f'{x}__L{k}'
 
     # ---- R15
     def coalesce(self, fn):
@@ -1754,7 +1787,8 @@ class Normaliser:
                                 and isinstance(blk[first].targets[0], ast.Name) and blk[first].targets[0].id == t and not _reads(blk[first].value, t):
                             occ = sum(_name_counts(st).get(t, 0) for st in blk[first:i])
                             tot = loads_total.get(t, 0) + counts.get(t, 0)
-                            t_mention = any(_name_counts(st).get(T.id, 0) for st in blk[first:i])
+                            copy_in = isinstance(blk[first].value, ast.Name) and blk[first].value.id == T.id
+                            t_mention = any(_name_counts(st).get(T.id, 0) for st in blk[first + (1 if copy_in else 0):i])
                             nested_use = any(isinstance(n, (ast.FunctionDef, ast.Lambda)) for st in blk[first:i] for n in ast.walk(st))
                             if occ + 1 == tot and not t_mention and not nested_use:
                                 for j in range(first, i):
@@ -1763,6 +1797,9 @@ class Normaliser:
                                             n.id = T.id
                                     _NC.pop(id(blk[j]), None)
                                 del blk[i]
+                                if copy_in:
+                                    del blk[first]          # T = T
+                                    i -= 1
                                 changed[0] = True
                                 continue
                     if okT and counts.get(t) == 1 and t not in params and not (isinstance(T, ast.Name) and T.id == t) and self.is_new(t):
@@ -1902,6 +1939,53 @@ def _drop_tail(stmts, kind):
         last.body = _drop_tail(last.body, kind) or [ast.Pass()]
         last.orelse = _drop_tail(last.orelse, kind)
     return stmts
+
+
+def _eval_order(e, out):
+    """Expression nodes in Python evaluation order (a call is listed after its function expression and arguments)."""
+    if isinstance(e, ast.Call):
+        _eval_order(e.func, out)
+        for a in e.args:
+            _eval_order(a, out)
+        for k in e.keywords:
+            _eval_order(k.value, out)
+        out.append(e)
+        return
+    for ch in ast.iter_child_nodes(e):
+        if isinstance(ch, ast.expr):
+            _eval_order(ch, out)
+    out.append(e)
+
+
+def _nothing_impure_before(stmt, t):
+    """In the simple statement `stmt`, is everything that is evaluated before the (single) read of t side-effect free?"""
+    if isinstance(stmt, ast.Assign):
+        exprs = [stmt.value] + list(stmt.targets)
+    elif isinstance(stmt, ast.AugAssign):
+        exprs = [stmt.target, stmt.value]
+    else:
+        exprs = [stmt.value] if getattr(stmt, 'value', None) is not None else []
+    order = []
+    for e in exprs:
+        _eval_order(e, order)
+    for n in order:
+        if isinstance(n, ast.Name) and n.id == t:
+            return True
+        if isinstance(n, ast.Call) and not is_pure(n):
+            return False
+    return False
+
+
+def has_return_value(stmts):
+    stack = list(stmts)
+    while stack:
+        n = stack.pop()
+        if isinstance(n, ast.Return) and n.value is not None:
+            return True
+        if isinstance(n, (ast.FunctionDef, ast.AsyncFunctionDef, ast.Lambda, ast.ClassDef)):
+            continue
+        stack.extend(ast.iter_child_nodes(n))
+    return False
 
 
 def _finalise(node):
